@@ -8,6 +8,9 @@
      7  WriteAuthorizationModel (+ follow-up queries): class, class of the write itself,
         abstraction of the model; the hasCycle cost model decides whether an overrun is the listed
         finding, and a model in which it finds a cycle / undefined relation must be rejected
+     8  fault injection below the handlers: server (engines), rpc, datastore method, k, panic value
+        kind, fired, class, still serving afterwards, recovery site; Sec/NoPanic.v fate_of decides
+        which process deaths are the listed findings
    Outcome classes: 0 ok 1 validation 2 client error 3 deadline answer 4 internal error
      5 PANIC escaped the handler 6 panic captured in the handler 7 DEADLINE OVERRUN
      8 MEMORY BLOW-UP 9 PROCESS CRASH 10 transport error.
@@ -226,6 +229,32 @@ let f _id vs =
     else if first = 0 && res = HCycle then "DIFF the model of hasCycle finds a cycle of computed usersets, the server accepted the model"
     else if first = 0 && res = HErr then "DIFF the model of hasCycle meets an undefined relation, the server accepted the model"
     else "OK"
+
+  | [I "8"; server; rpc; meth; _k; kind; fired; cl; alive; site] ->
+    let server = as_int server and rpc = as_int rpc and meth = as_int meth and c = as_int cl in
+    let fired = as_bool fired and alive = as_bool alive and site = as_int site in
+    let rpcs = [| "Check"; "BatchCheck"; "ListObjects"; "StreamedListObjects"; "ListUsers"; "Expand"; "Write"; "Read" |] in
+    let meths = [| "Read"; "ReadUserTuple"; "ReadUsersetTuples"; "ReadStartingWithUser"; "Next"; "Head"; "Stop" |] in
+    let kinds = [| "error"; "string"; "struct"; "runtime error" |] in
+    let what = Printf.sprintf "server %d %s, %s panics with a %s value, recovery site %d" server rpcs.(rpc) meths.(meth) kinds.(as_int kind) site in
+    if not fired then (if bad_class c || not alive then "PROP " ^ class_name c ^ " without the injected fault firing (" ^ what ^ ")" else "OK")
+    else begin
+      let v = (match as_int kind with 0 -> PVError | 1 -> PVString | 2 -> PVStruct | _ -> PVRuntime) in
+      let s = (match site with 0 -> SHandler | 1 -> STry | 2 -> SPipeline | 3 -> SEvaluate | _ -> SOther) in
+      let fate = fate_of s v in
+      let crashed = (c = 9) || (not alive && c <> 7) in
+      if crashed then
+        (match fate with
+         | FDies when site = 3 && (rpc = 2 || rpc = 3) ->
+           "KNOWN listobjects_reverse_expand_panic_kills_process " ^ what
+         | FDies when site = 4 -> "KNOWN unrecovered_goroutine_panic_kills_process " ^ what
+         | FError when server = 2 && (rpc = 0 || rpc = 1) && site = 1 ->
+           "KNOWN weighted_check_panic_cleanup_kills_process " ^ what
+         | _ -> "PROP process crash: a panic below the handlers escaped the request (" ^ what ^ ")")
+      else if c = 7 then "KNOWN datastore_panic_leaves_request_hanging " ^ what
+      else if c = 8 then "PROP memory blow-up after an injected panic (" ^ what ^ ")"
+      else "OK"
+    end
 
   | _ -> "DIFF malformed-record"
 
